@@ -461,6 +461,20 @@ func shortKey(k string) string {
 
 func (ex *Exec) applyContract(spec *FuncSpec, info calleeInfo, c *ssa.CallCommon, args []Val, rt types.Type, pos token.Pos) Val {
 	ex.usedSpecs[info.key] = true
+	// "callpre K n expr": a fact the caller establishes just before this call
+	if ex.spec != nil {
+		for _, cl := range ex.spec.Clauses {
+			if cl.Kind == "callpre" && cl.Name == fmt.Sprintf("%s %d", info.key, ex.callOrdinal(c, info.key)) {
+				aenv := ex.envAt(ex.cur, nil)
+				for i, a := range args {
+					aenv.vars[fmt.Sprintf("arg%d", i)] = a
+				}
+				g := ex.evalSpec(cl.Expr, aenv)
+				ex.oblige("callpre:"+shortKey(info.key), ex.tagsOf(cl), g.T, pos, cl.Text)
+				ex.assumeHere(g.T)
+			}
+		}
+	}
 	ex.checkCallPre(spec, info, c, args, pos)
 	// "bind g T := before K n expr": expr over the state just before the call,
 	// with the call's arguments available as arg0, arg1, ...
@@ -817,7 +831,14 @@ func (ex *Exec) havocTarget(e SExpr, env *Env, pre, post *State) {
 			ex.setHeap(post, vn, ex.D.Fresh(vn, ArrS(SInt, ArrS(SInt, vs))))
 			return
 		case "entries":
-			m := ex.evalSpec(x.Args[0], env)
+			menv := env
+			if strings.Contains(show(x.Args[0]), "result") {
+				// a map reached through the (fresh) result: its fields are read in the post-state
+				e2 := *env
+				e2.st = post
+				menv = &e2
+			}
+			m := ex.evalSpec(x.Args[0], menv)
 			mt := m.Ty.Underlying().(*types.Map)
 			vs := sortOf(mt.Elem())
 			dn, vn := mapDomName(mt), mapValName(mt)
